@@ -61,9 +61,18 @@ func (s *dnsProxy) Handle(ctx context.Context, conn net.Conn) error {
 	// the server hands over its timeout wrapper, never the accepted connection itself:
 	// tell datagram from stream by the address, not by the concrete connection type
 	if _, ok := conn.LocalAddr().(*net.UDPAddr); ok {
-		n, err := conn.Read(buff[:])
-		if err != nil {
-			return err
+		// the datagram may come in more than one Read (behind the server's peek wrapper the first
+		// Read returns only what was peeked): read until the datagram connection reports its end
+		n := 0
+		for n < len(buff) {
+			k, err := conn.Read(buff[n:])
+			n += k
+			if err != nil {
+				break
+			}
+		}
+		if n == 0 {
+			return io.ErrUnexpectedEOF
 		}
 
 		conn2, err := s.d.Dial(conn)
